@@ -123,7 +123,52 @@ def score_work(m):
 SCORES = dict(sum=score_sum, big=score_big, neg=score_neg, tie=score_tie, work=score_work)
 
 
+HANGS = 0
+
+
 def run_history(case, props=None):
+    """Histories that start worker processes run in a child process group with a watchdog: a multiprocessing pool that
+    is torn down while results are pending can (rarely) hang inside CPython; such a run is killed and repeated once,
+    and counted as inconclusive (never as a violation) if it hangs again."""
+    procs = case[5] if case[0] in ('batch', 'batch_pl', 'search_pl') else (case[4] if case[0] == 'search' else 1)
+    if not isinstance(procs, int) or procs <= 1:
+        return _run_history(case, props)
+    import multiprocessing as mp
+    import os
+    import signal
+    global HANGS
+    ctx = mp.get_context('fork')
+    for attempt in (0, 1):
+        rd, wr = ctx.Pipe(duplex=False)
+
+        def child():
+            os.setsid()
+            try:
+                wr.send(_run_history(case, props))
+            except BaseException as ex:      # noqa
+                wr.send([('C15' if case[0].startswith('batch') else 'C16', f'driver error {type(ex).__name__}: {ex}')])
+        p = ctx.Process(target=child)
+        p.start()
+        wr.close()
+        if rd.poll(90):
+            res = rd.recv()
+            p.join(5)
+            if p.is_alive():
+                try:
+                    os.killpg(p.pid, signal.SIGKILL)
+                except Exception:
+                    pass
+            return res
+        try:
+            os.killpg(p.pid, signal.SIGKILL)
+        except Exception:
+            p.kill()
+        p.join(5)
+    HANGS += 1
+    return []
+
+
+def _run_history(case, props=None):
     out = []
     kind = case[0]
     import ECAgent.Batching as B
